@@ -1,5 +1,6 @@
 import Qv.Proofs.Expr
 import Qv.Proofs.Values
+import Qv.Proofs.Unique
 /-!
 # C05 — Model arithmetic and evaluation agree with polynomial arithmetic
 
@@ -36,6 +37,31 @@ theorem tree_canonical (s : Bool) (t : Expr) (κ : Kind) (p : Poly)
   rcases squash_canon (wf.fixed k hk) with h' | h'
   · exact absurd h' hd
   · exact h'
+
+/-- **T5.4 (equal functions ⇒ equal dicts), boolean family — `_partial`: the spin family is not
+mechanised (it needs the boolean/spin bijection of C04 at coefficient level).**  If two expression trees over
+boolean models evaluate successfully and denote the same function on boolean assignments, the two
+resulting models have the same coefficient at every key — i.e. they compare equal as dicts (both are
+canonical by `tree_canonical`: distinct keys, no zero values, so equality of `get` is dict equality). -/
+theorem equal_functions_equal_dicts_partial (t1 t2 : Expr) (κ1 κ2 : Kind) (p q : Poly)
+    (hf1 : t1.family false = true) (hf2 : t2.family false = true)
+    (h1 : run t1 = .ok (.mdl κ1 p)) (h2 : run t2 = .ok (.mdl κ2 q))
+    (h : ∀ x, IsBool x → den x t1 = den x t2) : ∀ k, get p k = get q k := by
+  have toPubo : ∀ {κ : Kind} {r : Poly}, κ ≠ .dict → WF (squash κ) r → WF (squash .pubo) r := by
+    intro κ r hd w
+    refine ⟨w.nodup, fun k hk => ?_, w.nonzero⟩
+    rcases squash_canon (w.fixed k hk) with h' | h'
+    · exact absurd h' hd
+    · exact squash_of_canon (Or.inr ⟨h'.1, by simp [Kind.isDeg2]⟩)
+  have hx1 : Fam false (fun _ => (1 : Rat)) := by simp [Fam, IsBool]
+  have g1 := (run_sound (s := false) (x := fun _ => 1) hx1 t1 hf1 h1).2
+  have g2 := (run_sound (s := false) (x := fun _ => 1) hx1 t2 hf2 h2).2
+  apply coeff_eq_of_eval_eq (toPubo g1.1 g1.2.2) (toPubo g2.1 g2.2.2)
+  intro x hx
+  have e1 := (run_sound (s := false) (x := x) (by simpa [Fam] using hx) t1 hf1 h1).1
+  have e2 := (run_sound (s := false) (x := x) (by simpa [Fam] using hx) t2 hf2 h2).1
+  simp only [Val.eval] at e1 e2
+  rw [e1, e2, h x hx]
 
 /-- **T5.5 (result type).**  The result of a binary operator is a model of the type of the model
 operand (the left one if both are models). -/
